@@ -32,6 +32,7 @@ RULE += (' Also: host instances are falsy and report len() == 0.')
 RULE += (' Also: a lock type whose instances share one non-re-entrant lock; opaque property values.')
 RULE += (' Also: property values that happen to be awaitable.')
 RULE += (' Also: frozen hosts (__setattr__ raises).')
+RULE += (' Also: probe locks offer locked().')
 ASSUMPTIONS = ["awaiting a handle taken while a value was cached returns that value (unspecified after del; accepted)",
                "the getter's own suspensions are the only scheduling points besides lock waits"]
 EXHAUSTIVE_SUBSPACES = 'all operation sequences of length <= 5 (thorough: 6) over 7 operations; DFS-complete schedule sets for the scenarios counted in scenarios_explored_exhaustively'
